@@ -28,7 +28,7 @@ type c16cfg struct {
 }
 
 func (c *c16cfg) String() string {
-	return fmt.Sprintf("{PartsOrder:%q PartsExclude:%q FieldsOrder:%q FieldsExclude:%q TimeFormat:%q TimeLocation:%s}", c.PartsOrder, c.PartsExclude, c.FieldsOrder, c.FieldsExclude, c.TimeFormat, c.LocName)
+	return fmt.Sprintf("{PartsOrder(nil=%v):%q PartsExclude:%q FieldsOrder:%q FieldsExclude:%q TimeFormat:%q TimeLocation:%s}", c.PartsOrder == nil, c.PartsOrder, c.PartsExclude, c.FieldsOrder, c.FieldsExclude, c.TimeFormat, c.LocName)
 }
 
 func inList(l []string, s string) bool {
@@ -323,7 +323,6 @@ func c16(args []string) int {
 	total := f.N(80000, 4000000)
 	x := &gen.Exec{}
 	var hits [9]map[string]int
-	stdParts := []string{"time", "level", "caller", "message"}
 	for idx := 0; idx < total; idx++ {
 		if !f.Mine(idx) {
 			continue
@@ -334,21 +333,49 @@ func c16(args []string) int {
 		g.P = gen.Profile{MaxDepth: 3}
 		st := gen.DefaultSettings()
 		st.TimeFieldFormat = []string{"", zerolog.TimeFormatUnixMs, zerolog.TimeFormatUnixMicro, zerolog.TimeFormatUnixNano, time.RFC3339, time.RFC3339Nano}[r.Intn(6)]
+		z := c16zones[r.Intn(len(c16zones))]
+		if z.l == nil || z.l == time.UTC {
+			// layouts without zone information are unambiguous only when TimeLocation is UTC (TZ=UTC here)
+			if r.Chance(1, 4) {
+				st.TimeFieldFormat = []string{time.UnixDate, "2006-01-02 15:04:05.000000", time.Kitchen}[r.Intn(3)]
+			}
+		}
+		// the instant: anywhere in 1840-2100, or an edge (the epoch, just before it, exact seconds, midnight)
+		switch r.Intn(8) {
+		case 0:
+			st.Now = time.Unix([]int64{0, -1, 1, 86400, -86400, 951782400, 4102444799, -4102444800}[r.Intn(8)], 0).UTC()
+		case 1:
+			st.Now = time.Unix(int64(r.Intn(8204889600))-4102444800, 0).UTC()
+		case 2:
+			st.Now = time.Unix((int64(r.Intn(94000))-47000)*86400, int64([]int{0, 1, 999999999, 500000000}[r.Intn(4)])).UTC()
+		default:
+			st.Now = time.Unix(int64(r.Intn(8204889600))-4102444800, int64(r.Intn(1000000000))).UTC()
+		}
+		// names of the part fields
+		if r.Chance(1, 4) {
+			st.TimestampFieldName = []string{"ts", "@t", "when"}[r.Intn(3)]
+		}
+		if r.Chance(1, 4) {
+			st.LevelFieldName = []string{"lvl", "severity"}[r.Intn(2)]
+		}
+		if r.Chance(1, 4) {
+			st.MessageFieldName = []string{"msg", "text"}[r.Intn(2)]
+		}
 		st.DurationFieldInteger = r.Bool()
 		st.FloatingPointPrecision = []int{-1, -1, 2}[r.Intn(3)]
 		st.ErrMarshal = []int{0, 0, 1, 2}[r.Intn(4)]
 		if r.Chance(1, 4) {
 			st.ErrorFieldName = "err"
 		}
-		g.V.AvoidKeys = []string{"time", "level", "message", "caller"}
+		g.V.AvoidKeys = []string{"time", "level", "message", "caller", st.TimestampFieldName, st.LevelFieldName, st.MessageFieldName}
+		stdParts := []string{st.TimestampFieldName, st.LevelFieldName, "caller", st.MessageFieldName}
 		g.S = &st
 		p := g.GenProgram(4, 2, 8)
 		// every event carries a timestamp and a standard level
 		p.Chain = append([]gen.Step{{Kind: "WithTimestamp"}}, p.Chain...)
 		for i := range p.Events {
 			ev := &p.Events[i]
-			if ev.Entry == "WithLevel" || ev.Entry == "Log" {
-				ev.Entry = "WithLevel"
+			if ev.Entry == "WithLevel" {
 				ev.Level = zerolog.Level(r.Intn(7) - 1)
 			}
 		}
@@ -361,13 +388,15 @@ func c16(args []string) int {
 				j := r.Intn(i + 1)
 				perm[i], perm[j] = perm[j], perm[i]
 			}
-			c.PartsOrder = perm[:1+r.Intn(4)]
+			c.PartsOrder = perm[:r.Intn(5)] // possibly empty but not nil: no parts at all
 		}
 		if r.Chance(1, 3) {
 			c.PartsExclude = []string{stdParts[r.Intn(4)]}
+			if r.Chance(1, 3) {
+				c.PartsExclude = append(c.PartsExclude, stdParts[r.Intn(4)], "nosuchpart")
+			}
 		}
 		c.TimeFormat = []string{"", time.Kitchen, time.RFC3339, "2006-01-02 15:04:05.000000", time.RFC1123Z, "15:04"}[r.Intn(6)]
-		z := c16zones[r.Intn(len(c16zones))]
 		c.Loc, c.LocName = z.l, z.n
 		restore := p.S.Apply()
 		res := x.Run(p)
@@ -404,10 +433,28 @@ func c16(args []string) int {
 				if r.Chance(1, 3) && len(names) > 0 {
 					c.FieldsExclude = []string{names[r.Intn(len(names))], "nosuch"}
 				}
+				// how a missing or non-standard level is shown is not specified: the level part is then excluded, and
+				// everything else is still judged
+				savedPE := c.PartsExclude
+				if lv := ev.Get(p.S.LevelFieldName); lv == nil || lv.Kind != jsonv.String || fmtLevels[lv.Str] == "" {
+					c.PartsExclude = append(append([]string{}, c.PartsExclude...), p.S.LevelFieldName)
+					out.Count("events_without_a_standard_level", 1)
+				}
+				rs := p.S.Apply()
 				var ob bytes.Buffer
 				cw := zerolog.ConsoleWriter{Out: &ob, NoColor: true, TimeFormat: c.TimeFormat, TimeLocation: c.Loc, PartsOrder: c.PartsOrder,
 					PartsExclude: c.PartsExclude, FieldsOrder: c.FieldsOrder, FieldsExclude: c.FieldsExclude}
-				rs := p.S.Apply()
+				if idx%2 == 1 {
+					// the same configuration through the constructor and an option
+					cc := c
+					cw = zerolog.NewConsoleWriter(func(w *zerolog.ConsoleWriter) {
+						w.Out, w.NoColor, w.TimeFormat, w.TimeLocation = &ob, true, cc.TimeFormat, cc.Loc
+						if cc.PartsOrder != nil {
+							w.PartsOrder = cc.PartsOrder
+						}
+						w.PartsExclude, w.FieldsOrder, w.FieldsExclude = cc.PartsExclude, cc.FieldsOrder, cc.FieldsExclude
+					})
+				}
 				n, werr := cw.Write(w.P)
 				first := append([]byte{}, ob.Bytes()...)
 				ob.Reset()
@@ -425,7 +472,9 @@ func c16(args []string) int {
 					out.Violate("nondeterministic", fmt.Sprintf("two renderings of the same event and configuration differ: %q vs %q", clipb(first), clipb(ob.Bytes())), rep)
 					continue
 				}
-				if err := checkConsole(first, ev, c, &p.S); err != nil {
+				err = checkConsole(first, ev, c, &p.S)
+				c.PartsExclude = savedPE
+				if err != nil {
 					if strings.HasPrefix(err.Error(), "generator:") {
 						out.Count("skipped_outside_statement", 1)
 						continue
